@@ -55,7 +55,7 @@ def value_of(pdb, path):
     fn = pdb.fn(path)
     if fn is None:
         return None, None, "function not found"
-    ex = SymExec(pdb, fn)
+    ex = SymExec(pdb, fn, auto=True)
     try:
         ret = ex.run()
     except NotStraight as e:
@@ -97,13 +97,23 @@ def run(rep, pdb, tier):
     # f64 * Complex forwards to Complex * f64 (product commutes)
     path = "<f64 as std::ops::Mul<complex::Complex<f64>>>::mul"
     fn = pdb.fn(path)
-    key, rule = "field/%s" % path, "f64 * z is the forwarding call z * f64 (the scalar product commutes)"
+    key, rule = "field/%s" % path, "f64 * z is the forwarding call z * f64, or the same value (z.real*s, z.imag*s) written out (the scalar product commutes)"
     if fn is None:
         rep.missing(key, rule, "function not found")
     else:
         fw = forwards_to(pdb, fn)
         ok = fw is not None and fw[0] == "<%s as std::ops::Mul<T>>::mul" % C and fw[1] == [1, 0]
-        rep.add(key, rule, ok, fn["body"], "forwards to %s %s" % (fw[0], fw[1]) if fw else "not a forwarding call", where=loc(fn["body"]), proof=True)
+        det = "forwards to %s %s" % (fw[0], fw[1]) if fw else "not a forwarding call"
+        if not ok:
+            # written out instead of forwarded: the value must be (z.real * s, z.imag * s) over Q
+            try:
+                ex = SymExec(pdb, fn, inline={"<%s as std::ops::Mul<T>>::mul" % C}, auto=True)
+                ret = ex.run()
+                ok = ret is not None and ret[0] == "cplx" and rat_equal(ret[1], op("*", Cc, I(P(0)))) and rat_equal(ret[2], op("*", D, I(P(0))))
+                det = "value real=%s imag=%s" % (show_tree(ret[1]), show_tree(ret[2])) if ret is not None and ret[0] == "cplx" else det
+            except NotStraight as e:
+                det += "; not single-path: %s" % e
+        rep.add(key, rule, ok, fn["body"], det, where=loc(fn["body"]), proof=True)
     # ---- compound assignment bit-identical to the binary form
     for apath, bpath in PAIRS:
         key = "assign-bit-identical/%s" % apath
@@ -148,19 +158,26 @@ def run(rep, pdb, tier):
         rep.missing(key, rule, "function not found")
     else:
         ctx = Ctx.for_fn(pdb, fn)
-        b = strip(fn["body"])
-        ok = b.get("k") == "If" and b.get("else") is not None
-        det = ""
-        if ok:
-            c = ctx.term(b["cond"])
-            ne = c[0] == "op" and c[1] == "!=" and {c[2], c[3]} == {F(P(0), "real"), F(P(1), "real")}
-            eq = c[0] == "op" and c[1] == "==" and {c[2], c[3]} == {F(P(0), "real"), F(P(1), "real")}
-            t1, t2 = ctx.term(b["then"]), ctx.term(b["else"])
+        from .common import return_paths
+        RE = {F(P(0), "real"), F(P(1), "real")}
 
-            def cmp_of(t_, name):
-                return t_[0] == "call" and str(t_[1]).endswith("partial_cmp") and t_[2] == F(P(0), name) and t_[3] == F(P(1), name)
-            ok = (ne and cmp_of(t1, "real") and cmp_of(t2, "imag")) or (eq and cmp_of(t1, "imag") and cmp_of(t2, "real"))
-            det = "cond=%s" % (c,)
+        def cmp_of(t_, name):
+            if t_[0] == "call" and str(t_[1]).endswith("Some") and len(t_) == 3:
+                t_ = t_[2]
+            return t_[0] == "call" and str(t_[1]).endswith("partial_cmp") and t_[2] == F(P(0), name) and t_[3] == F(P(1), name)
+        paths = return_paths(ctx)
+        seen = set()
+        ok = bool(paths)
+        dd = []
+        for fs, val, node in paths:
+            eq = any(f[0] == "cmp" and f[1] == "==" and {f[2], f[3]} == RE for f in fs)
+            ne = any(f[0] == "cmp" and f[1] == "!=" and {f[2], f[3]} == RE for f in fs)
+            good = (eq and not ne and cmp_of(val, "imag")) or (ne and not eq and cmp_of(val, "real"))
+            seen.add("eq" if eq else "ne" if ne else "?")
+            dd.append("%s -> %s" % ("real parts equal" if eq else "real parts differ" if ne else "no test", "ok" if good else "WRONG"))
+            ok = ok and good
+        ok = ok and seen == {"eq", "ne"}
+        det = "; ".join(dd)
         rep.add(key, rule, ok, fn["body"], det, where=loc(fn["body"]))
     # ---- the comparison traits define only their required method: no lt/le/gt/ge/ne override can disagree with it
     for tr, only in (("std::cmp::PartialOrd", "partial_cmp"), ("std::cmp::PartialEq", "eq")):
